@@ -357,8 +357,23 @@ pub fn run(args: &Args, report: &mut Report) {
                     continue;
                 }
                 // real execution of a sample: the links used == the links dumped
-                if exec_budget > 0 && rng.chance(1, 40) && layout.total_cores() <= 9 && !name.starts_with("channel_sinks") {
+                // (a forward connection towards replicas that have no producer is rejected by the
+                // engine when the workers are set up: such configurations are dumped, not executed)
+                let orphan_consumers = {
+                    let with_input: HashSet<C3> = dumps[0].links.iter().map(|(_, t, _, _)| c3(*t)).collect();
+                    let fed_blocks: HashSet<u64> = dumps[0].links.iter().map(|(_, t, _, _)| t.block_id).collect();
+                    dumps[0].blocks.iter().filter(|b| fed_blocks.contains(&b.block_id)).any(|b| b.replicas.iter().any(|(c, _)| !with_input.contains(&c3(*c))))
+                };
+                if exec_budget > 0 && rng.chance(1, 40) && layout.total_cores() <= 9 && !name.starts_with("channel_sinks") && !orphan_consumers && idx > args.skip {
                     exec_budget -= 1;
+                    crate::report::RESUME_FROM.store(idx, std::sync::atomic::Ordering::SeqCst);
+                    {
+                        let (n2, l2) = (name.clone(), layout.name());
+                        crate::run::on_no_return(move |end, census, r| {
+                            let d = json!({"engine":"graphdump.exec","program":n2,"layout":l2,"error":format!("executed sample did not return: {end:?}"),"census":crate::run::census_json(census)});
+                            r.case(Verdict::Inconclusive, None, || d);
+                        });
+                    }
                     let res = run_job(layout, RunOpts { log_links: true, ..Default::default() }, |ctx, _| prog(ctx), |_, _| ());
                     if !res.all_ok() {
                         report.case(Verdict::Inconclusive, None, || detail(Some(format!("execution failed: {:?}", res.panic_messages())), None));
